@@ -12,7 +12,7 @@ WITNESSES = ['w3']
 
 
 MANIFEST = {
-    "text": "Static decision that warming the cache cannot change answers: the lazy and the compiled branch of LazyRegex::is_match / regex() evaluate the same regex built by the same builder function (any shortcut must be implied by the pattern being `.*`); compile() copies pattern, original and case flag unchanged; an effect inventory over everything reachable from Router::cache / RegexTreeMap::cache / Route::compile shows that only the regex-cache fields (Node.regex, Leaf.regex, the LazyRegex behind MarkerString.regex_capture) are writable from there, each assigned compile() of its previous value; the cache budget arithmetic is guarded.",
+    "text": "Static decision that warming the cache cannot change answers: the lazy and the compiled branch of LazyRegex::is_match / regex() evaluate the same regex built by the same builder function (any shortcut must be implied by the pattern being `.*`); compile() copies pattern, original and case flag unchanged; an effect inventory over everything reachable from Router::cache / RegexTreeMap::cache / Route::compile shows that only the regex-cache fields (Node.regex, Leaf.regex, the LazyRegex behind MarkerString.regex_capture) are writable from there, each assigned compile() of its previous value; the cache budget arithmetic is guarded. Also (round 5): LazyRegex.compiled is read only by the regex itself and by the warm-up (R12.7) — no structural decision of the tree depends on the cache state.",
     "technique": "static analysis: decision-table comparison of sibling branches, transitive field-effect inventory over the call graph, provenance",
 }
 
